@@ -210,7 +210,7 @@ def obligations(tier, seed):
     K = 1 if tier == "quick" else 2
     blocks = [("threading", "list", False), ("loky", "list", False), ("stub_cb", "list", True),
               ("stub_legacy", "list", False), ("multiprocessing", "list", True), ("threading", "generator", False),
-              ("loky", "generator", True)]
+              ("loky", "generator", True), ("stub_noabort", "list", True), ("stub_noabort", "generator_unordered", False)]
     for be, ra, uw in blocks:
         obs.append({"name": "fail/%s/%s/with=%s" % (be, ra, uw), "fn": "ob_fail", "mode": "S",
                     "params": {"backend": be, "return_as": ra, "use_with": uw, "K": K, "n0": 6 if tier == "quick" else 7,
